@@ -102,6 +102,15 @@ Theorem removed_entries_are_closed : forall tls m ops, released_closed (run tls 
 Proof. exact released_closed_run. Qed.
 Print Assumptions removed_entries_are_closed.
 
+(* SEVERAL ACCEPTS IN ONE SERVICE CALL (plain server): whatever else is accepted in the same call, the
+   entry for ca afterwards is the LAST connection accepted from ca in that call (incomers are numbered
+   in accept order); the older ones are unreferenced, hence shut down by table_functional_no_orphans. *)
+Theorem batch_entry_is_newest_accept : forall m s pre ca post hs,
+  ~ In ca post ->
+  lookup ca (ixes (step false m s (ServiceConnects (pre ++ ca :: post) hs))) = Some (next s + length pre).
+Proof. exact batch_keeps_newest. Qed.
+Print Assumptions batch_entry_is_newest_accept.
+
 (* removing an entry closes its socket and deletes exactly that entry *)
 Theorem remove_closes_socket : forall tls cleans s ca i,
   table_ok s -> lookup ca (ixes s) = Some i ->
